@@ -8,6 +8,7 @@ import (
 	"io"
 	"net"
 	"net/http"
+	"os"
 	"strings"
 	"sync"
 	"time"
@@ -58,13 +59,28 @@ type extHost struct{ ext map[component.ID]component.Component }
 
 func (h extHost) GetExtensions() map[component.ID]component.Component { return h.ext }
 
-func freePort() int {
-	l, err := net.Listen("tcp", "127.0.0.1:0")
-	if err != nil {
-		panic(err)
+// Ports come from a per-worker slice of 10000-31999 (below the kernel's ephemeral range, so that neither another
+// worker nor an outgoing connection can grab one between choosing and binding); binding is retried on the next pair.
+var portSeq int
+
+func nextPortPair() (int, int) {
+	w := 0
+	fmt.Sscanf(os.Getenv("VERIF_WORKER"), "%d", &w)
+	base := 10000 + (w%22)*1000
+	portSeq++
+	off := (portSeq * 2) % 1000
+	return base + off, base + off + 1
+}
+
+func portsFree(ports ...int) bool {
+	for _, p := range ports {
+		l, err := net.Listen("tcp", fmt.Sprintf("127.0.0.1:%d", p))
+		if err != nil {
+			return false
+		}
+		_ = l.Close()
 	}
-	defer l.Close()
-	return l.Addr().(*net.TCPAddr).Port
+	return true
 }
 
 type c15Cfg struct {
@@ -149,7 +165,10 @@ func runC15(r *simkit.Run) {
 	// ---- receiver
 	authID := component.MustNewIDWithName("simauth", "a")
 	host := extHost{ext: map[component.ID]component.Component{authID: authStub{}}}
-	pg, ph := freePort(), freePort()
+	pg, ph := nextPortPair()
+	for i := 0; i < 200 && !portsFree(pg, ph); i++ {
+		pg, ph = nextPortPair()
+	}
 	rf := otlpreceiver.NewFactory()
 	rcfg := rf.CreateDefaultConfig().(*otlpreceiver.Config)
 	rcfg.GRPC.NetAddr.Endpoint = fmt.Sprintf("127.0.0.1:%d", pg)
@@ -189,7 +208,14 @@ func runC15(r *simkit.Run) {
 	if err := rcv.Start(context.Background(), host); err != nil {
 		panic(fmt.Sprintf("receiver start: %v", err))
 	}
-	defer func() { _ = rcv.Shutdown(context.Background()) }()
+	rcvDown := false
+	stopReceiver := func() {
+		if !rcvDown {
+			rcvDown = true
+			_ = rcv.Shutdown(context.Background())
+		}
+	}
+	defer stopReceiver()
 	simkit.Beat()
 
 	ids := &gen.IDs{Prefix: "i"}
@@ -294,6 +320,9 @@ func runC15(r *simkit.Run) {
 	simkit.Beat()
 	serr := send(context.Background())
 	simkit.Beat()
+	// The receiver goes first so that the server side closes the connections (see C16: keeps ephemeral client ports
+	// out of TIME_WAIT).
+	stopReceiver()
 	mu.Lock()
 	calls, got := sinkCalls, sinkBytes
 	mu.Unlock()
@@ -472,6 +501,7 @@ func runC15Raw(r *simkit.Run, cfg c15Cfg, ph int, sent []byte, mu *sync.Mutex, s
 	if err != nil {
 		panic(err)
 	}
+	req.Close = true // ask the server to close the connection after the response
 	req.Header.Set("Content-Type", ctype)
 	for k, v := range hdr {
 		req.Header.Set(k, v)
